@@ -1466,9 +1466,9 @@ def run(ctx):
     else:
         eq0, _ = base_eq()
         cases += [gen_fiber_case(rng) for _ in range(ctx.scale(150, 2500))]
-        cases += [gen_path_case(rng, eq0) for _ in range(ctx.scale(24, 300))]
+        cases += [gen_path_case(rng, eq0) for _ in range(ctx.scale(20, 300))]
         cases += [gen_path_case(rng, eq0, max_units=rng.choice([3, 4, 4])) for _ in range(ctx.scale(6, 60))]
-        cases += [gen_rpath_case(rng, eq0, small=(k % 2 == 0)) for k in range(ctx.scale(8, 80))]
+        cases += [gen_rpath_case(rng, eq0, small=(k % 2 == 0)) for k in range(ctx.scale(5, 80))]
         cases += [gen_mb_case(rng) for _ in range(ctx.scale(10, 150))]
         cases += [gen_merge_case(rng) for _ in range(ctx.scale(60, 1500))]
         cases += [gen_euler_case(rng) for _ in range(ctx.scale(40, 500))]
